@@ -37,7 +37,7 @@ const Spec specs[] = {
    {"printer",          {   3,   3,   5,  3,   9,   7,   8,   5,  2,   1,   0,   1,   2,   6,   1,   0},
     {{"PRINT", 22}, {"LOCATE", 8}, {"UNARY", 16}, {"BINARY", 16}, {"DECL", 14}, {"LITERAL", 12}, {"ENCLOSURE", 8}, {"ADD_STMT", 8}, {"BLOCK", 6}, {"UDT_NAME", 5}}},
    {"lifetime",         {   4,   4,   6,  3,   8,   6,   8,   6,  3,   5,   3,   1,   2,   5,   2,   0},
-    {{"PRINT", 3}, {"BULK", 1}, {"REPEAT", 8}, {"JUNK", 1}, {"LOCATE", 1}, {"DECL", 14}, {"UNARY", 12}, {"BINARY", 12}}},
+    {{"PRINT", 3}, {"BULK", 1}, {"REPEAT", 8}, {"JUNK", 1}, {"LOCATE", 1}, {"DECL", 14}, {"UNARY", 12}, {"BINARY", 12}, {"LONGSTR", 5}}},
 };
 
 std::vector<Profile> build()
